@@ -425,7 +425,13 @@ class Expr(core.Expr):
     def _filter_simplification(self, parent, predicate=None):
         if predicate is None:
             predicate = parent.predicate.substitute(self, self.frame)
-        return type(self)(self.frame[predicate], *self.operands[1:])
+        # other operands that go with the rows of frame (the Series to shuffle
+        # on, the new index) lose the same rows
+        operands = [
+            op[predicate] if isinstance(op, Expr) and op.ndim > 0 else op
+            for op in self.operands[1:]
+        ]
+        return type(self)(self.frame[predicate], *operands)
 
 
 class Literal(Expr):
